@@ -454,6 +454,10 @@ class HttpProxyPlugin(HttpProtocolHandlerPlugin):
                     )
                 self.pipeline_request.parse(raw)
                 if self.pipeline_request.is_complete:
+                    # Bytes past the end of this request, received in
+                    # the same segment, are the beginning of the next one
+                    rest = self.pipeline_request.buffer
+                    self.pipeline_request.buffer = None
                     for plugin in self.plugins.values():
                         assert self.pipeline_request is not None
                         r = plugin.handle_client_request(self.pipeline_request)
@@ -461,6 +465,8 @@ class HttpProxyPlugin(HttpProtocolHandlerPlugin):
                             # Request dropped by plugin, start afresh
                             # with the next request on this connection
                             self.pipeline_request = None
+                            if rest is not None and len(rest) > 0:
+                                self.on_client_data(rest)
                             return
                         self.pipeline_request = r
                     assert self.pipeline_request is not None
@@ -490,6 +496,8 @@ class HttpProxyPlugin(HttpProtocolHandlerPlugin):
                     )
                     if not self.pipeline_request.is_connection_upgrade:
                         self.pipeline_request = None
+                    if rest is not None and len(rest) > 0:
+                        self.on_client_data(rest)
             # For scenarios where we cannot peek into the data,
             # simply queue for upstream server.
             else:
